@@ -185,6 +185,78 @@ class Gen:
     def s_tuple(self, v, depth):
         return {'k': 'tuple', 'xs': self.chain(v, depth)}
 
+    # ------------------------------------------------------------ nested chains (C03)
+    def sentinel_fn(self, cur, fire=True):
+        """a callable that returns SKIP or STOP (fire) / its argument (not fire) on the value `cur`"""
+        r = self.rng
+        which = r.choice(['stop', 'stop', 'skip'])
+        if isinstance(cur, int) and not isinstance(cur, bool) and r.random() < 0.3:
+            if which == 'stop' and (cur < 0) == fire:
+                return self.fn('stop_if_neg')
+            if which == 'skip' and (cur % 2 != 0) == fire:
+                return self.fn('skip_if_odd')
+        return self.fn('%s_if_%s' % (which, 'truthy' if bool(cur) == fire else 'falsy'))
+
+    def plain_chain(self, cur, depth, nest=0.2):
+        """a chain made of str paths and plain callables only (what a reusable sub-chain looks like), with a
+        SKIP / STOP-returning callable at a random position (sometimes none, sometimes a second one that
+        does not fire); returns (steps, value the chain results in)"""
+        import glom
+        r = self.rng
+        n = r.randint(1, 4)
+        fire_at = r.randrange(n) if r.random() < 0.85 else -1
+        steps = []
+        stopped = False
+        for i in range(n):
+            p = r.random()
+            if i == fire_at:
+                s = self.sentinel_fn(cur, True)
+            elif p < 0.12:
+                s = self.sentinel_fn(cur, False)
+            elif p < 0.12 + nest and depth > 0:
+                sub, after = self.plain_chain(cur, depth - 1, nest=0.0)
+                s = {'k': r.choice(['tuple', 'tuple', 'pipe']), 'xs': sub}
+            else:
+                s = self.access(cur)
+                if s['k'] != 'str' or r.random() < 0.5:
+                    s = self.fn(self.fn_for(cur))
+            steps.append(s)
+            if stopped:
+                continue                      # steps after a STOP are never run: any shape will do
+            st, res = self.run(cur, s)
+            if st == 'ok':
+                if res is glom.STOP:
+                    stopped = True
+                elif res is not glom.SKIP:
+                    cur = res
+        return steps, cur
+
+    def s_nestchain(self, v, depth):
+        """a chain nested directly in a chain: (before.., (plain.., sentinel, plain..), after..) as tuple or
+        Pipe; STOP inside the inner chain ends the inner chain only, its result goes on to the outer steps"""
+        r = self.rng
+        xs = []
+        cur = v
+        for _ in range(r.randint(0, 2)):
+            s = self.spec(cur, 0)
+            xs.append(s)
+            st, res = self.run(cur, {'k': 'tuple', 'xs': [s]})
+            if st == 'ok':
+                cur = res
+        inner, cur = self.plain_chain(cur, depth)
+        xs.append({'k': 'tuple' if r.random() < 0.8 else 'pipe', 'xs': inner})
+        for _ in range(r.randint(1, 3)):
+            if r.random() < 0.25:
+                inner2, cur2 = self.plain_chain(cur, 0)
+                s = {'k': 'tuple', 'xs': inner2}
+            else:
+                s = self.spec(cur, 0) if r.random() < 0.5 else self.fn(self.fn_for(cur))
+            xs.append(s)
+            st, res = self.run(cur, {'k': 'tuple', 'xs': [s]})
+            if st == 'ok':
+                cur = res
+        return {'k': r.choice(['tuple', 'tuple', 'pipe']), 'xs': xs}
+
     def s_pipe(self, v, depth):
         return {'k': 'pipe', 'xs': self.chain(v, depth)}
 
@@ -395,23 +467,59 @@ class Gen:
                 'dflt': None if r.random() < 0.6 else {'k': 'lit', 'v': jv('sd')}}
 
     def s_matchdict(self, v, depth):
-        """Match({key_spec: value_spec}) on a dict target: a key's bindings reach its own value only"""
+        """Match({key_spec: value_spec}) on a dict target with several items: a key's bindings reach its
+        own value only -- not the key attempts, values or defaults of the sibling items matched later.
+        Literal (non-binding) keys for a random subset of the target's items come first, then a
+        catch-all key (a binder -- A.k, S(k=..), Let -- or a type) that takes the remaining items; the
+        values read the pool names (mostly the one the catch-all binds), so every result shows what
+        was visible at that item."""
         r = self.rng
+        prefix = None
+        if not (isinstance(v, dict) and len(v) >= 2 and all(isinstance(k, str) for k in v)) and r.random() < 0.6:
+            d = {}
+            for k in r.sample(NAMES + ['x', 'y'], r.randint(2, 3)):
+                d[k] = r.choice([0, 1, 'tv', None, 7])
+            prefix, v = {'k': 'val', 'v': jv(d)}, d
+        keys = list(v) if isinstance(v, dict) else []
+        name = r.choice(self.POOL)
+
+        def value():
+            p = r.random()
+            rd = {'k': 'sRead', 'name': name if r.random() < 0.8 else r.choice(self.POOL), 'steps': [],
+                  'item': r.random() < 0.4}
+            if p < 0.35:
+                return rd
+            if p < 0.6:
+                return {'k': 'coalesce', 'subs': [rd], 'dflt': {'k': 'lit', 'v': jv('unbound')}, 'dflt_factory': None,
+                        'skip': None, 'skip_exc': ['GlomError']}
+            if p < 0.7:
+                return self.s_reader(v, 0)
+            if p < 0.8:
+                return self.probe()
+            return r.choice([{'k': 't', 'steps': []}, {'k': 'ty', 'name': 'object'}])
         es = []
-        if isinstance(v, dict):
-            for k in list(v)[:2]:
-                if r.random() < 0.6:
-                    es.append([{'k': 'str', 's': k} if isinstance(k, str) else {'k': 'lit', 'v': jv(k)},
-                               r.choice([{'k': 'ty', 'name': 'object'}, self.s_reader(v, 0), self.probe()])])
+        lits = [k for k in keys if r.random() < 0.5]
+        r.shuffle(lits)
+        for k in lits:
+            es.append([{'k': 'str', 's': k} if isinstance(k, str) else {'k': 'lit', 'v': jv(k)}, value()])
         p = r.random()
-        if p < 0.5:
-            es.append([{'k': 'aBind', 'name': r.choice(self.POOL)},
-                       r.choice([self.s_reader(v, 0), {'k': 'ty', 'name': 'object'}])])
-        elif p < 0.8:
-            es.append([{'k': 'ty', 'name': r.choice(['str', 'object', 'int'])},
-                       r.choice([{'k': 'ty', 'name': 'object'}, self.s_reader(v, 0)])])
-        return {'k': 'match', 's': {'k': 'dict', 'es': es},
-                'dflt': None if r.random() < 0.7 else {'k': 'lit', 'v': jv('md')}}
+        if p < 0.65:
+            q = r.random()
+            if q < 0.5:
+                bkey = {'k': 'aBind', 'name': name}
+            elif q < 0.8:
+                bkey = {'k': 'sBind', 'bs': [[name, r.choice([{'k': 'lit', 'v': jv('kb')}, {'k': 't', 'steps': []},
+                                                               {'k': 'list', 'xs': [{'k': 't', 'steps': []}]}])]]}
+            else:
+                bkey = {'k': 'let', 'bs': [[name, {'k': 't', 'steps': []}]]}
+            es.append([bkey, value()])
+        elif p < 0.9:
+            es.append([{'k': 'ty', 'name': r.choice(['str', 'object', 'int'])}, value()])
+        m = {'k': 'match', 's': {'k': 'dict', 'es': es},
+             'dflt': None if r.random() < 0.7 else {'k': 'lit', 'v': jv('md')}}
+        if prefix is not None:
+            return {'k': r.choice(['tuple', 'pipe']), 'xs': [prefix, m]}
+        return m
 
     # ------------------------------------------------------------ modes (C08)
     def s_probe(self, v, depth):
